@@ -29,6 +29,18 @@ for s in seeds:
         v = [l for l in r.stdout.splitlines() if l.startswith("VIOLATION")]
         if v:
             hits.append("%s(%d)" % (c, len(v)))
+            # which obligations failed, and how (a timeout under load is not a detection)
+            with open(os.environ.get("MATRIX_DETAIL", "/tmp/seedmatrix_detail.log"), "a") as df:
+                for l in v:
+                    rp = l.split("replay=")[-1].split()[0]
+                    st = ""
+                    try:
+                        for rl in open(rp):
+                            if rl.startswith("status:"):
+                                st = rl.strip()
+                    except OSError:
+                        pass
+                    df.write("%s %s %s %s\n" % (s, c, os.path.basename(rp), st))
     out[s] = hits
     print("%-8s own=%s claimed=%s detected_by=%s" % (s, prop, prop in claimed, " ".join(hits) or "-"), flush=True)
 subprocess.run("git -C /repo worktree remove --force %s" % wt, shell=True, capture_output=True)
